@@ -231,7 +231,9 @@ def rtokens_or(x):
 # ---------------------------------------------------------------------------
 # the real adapters
 
-def run_real(case, root):
+def run_real(case, root, shared=None):
+    """`shared`: a dict in which the adapter instance is kept, so that several
+    steps go through one adapter as they do in a study"""
     ad = adapters()
     if case["envuri"]:
         os.environ["FLUX_URI"] = case["envuri"]
@@ -239,7 +241,12 @@ def run_real(case, root):
         os.environ.pop("FLUX_URI", None)
     try:
         try:
-            a = ad[case["adapter"]](**dict(case["kw"]))
+            if shared is not None and "adapter" in shared:
+                a = shared["adapter"]
+            else:
+                a = ad[case["adapter"]](**dict(case["kw"]))
+                if shared is not None:
+                    shared["adapter"] = a
         except KeyError:
             return "INIT-RAISE:KeyError", None
         step = ad["StudyStep"]()
@@ -602,10 +609,11 @@ def monitor(case, out, parsed):
     return mon
 
 
-def make_case(case, root):
-    out, parsed = run_real(case, root)
+def make_case(case, root, shared=None):
+    out, parsed = run_real(case, root, shared)
     mon = monitor(case, out, parsed)
     data = {k: case[k] for k in ("adapter", "kw", "fargs", "envuri", "name", "desc", "run", "malformed")}
+    data["nth_step_of_adapter"] = case.get("nth", 1)
     data["tokens"] = None if case["tokens"] is None else [t[0] for t in case["tokens"]]
     data["impl"] = out if parsed is None else {"scheduled": parsed[0], "main": parsed[1], "restart": parsed[2]}
     nontrivial = parsed is not None and parsed[0]
@@ -659,9 +667,29 @@ def run(ctx, escalated=False):
     try:
         for d in corpus():
             cases.append(make_case(d, root))
-        for k in range(n):
+        cases.extend(reuse_corpus(root))
+        k = 0
+        while k < n:
             d = gen_case(ctx.rng, ctx.rng.random() < 0.2)
             cases.append(make_case(d, root))
+            k += 1
+            if ctx.rng.random() < 0.35 and d["adapter"] != "local":
+                # a study: several steps through one adapter instance (the
+                # script of a step must not depend on the steps written before)
+                shared = {}
+                group = [d]
+                for j in range(ctx.rng.randint(2, 4)):
+                    e = gen_case(ctx.rng, False)
+                    for key in ("adapter", "kw", "fargs", "envuri"):
+                        e[key] = d[key]
+                    if e["adapter"] == "flux" and e["run"].get("walltime") == "00:59:30.5":
+                        e["run"]["walltime"] = "00:59:30"
+                    e["nth"] = j + 1
+                    group.append(e)
+                for e in group[1:]:
+                    cases.append(make_case(e, root, shared))
+                    k += 1
+                ctx.count("adapter-reuse-groups")
     finally:
         shutil.rmtree(root, ignore_errors=True)
     for c in cases:
@@ -675,3 +703,22 @@ def run(ctx, escalated=False):
     diffs = compare(cases)
     account(ctx, cases)
     judge(ctx, cases, diffs, "script-generation", max_report=4)
+
+
+def reuse_corpus(root):
+    """deterministic: a resource-heavy step followed by a light one through the
+    same adapter instance"""
+    out = []
+    base = {"fargs": {}, "envuri": None, "desc": "d", "malformed": False, "rtokens": []}
+    for ad in ("slurm", "lsf", "flux"):
+        kw = {"type": ad, "host": "h", "bank": "b", "queue": "q"}
+        heavy = dict(base, adapter=ad, kw=kw, name="heavy", tokens=[],
+                     run={"cmd": "app", "nodes": 2, "procs": 8, "walltime": "02:00:00", "gpus": 2,
+                          "reservation": "dat", "exclusive": True, "qos": "high"})
+        light = dict(base, adapter=ad, kw=kw, name="light", tokens=[], nth=2,
+                     run={"cmd": "app", "nodes": 1, "procs": 1})
+        shared = {}
+        out.append(make_case(heavy, root, shared))
+        out.append(make_case(light, root, shared))
+        out.append(make_case(dict(heavy, nth=3), root, shared))
+    return out
